@@ -1,4 +1,3 @@
-// build: no-xen
 //! C02: every address query of GuestMemory / GuestMemoryRegion on GuestMemoryMmap layouts and on
 //! MockMem, a harness-defined implementor that relies on every provided (default) method.
 //! case:  kind(0 mmap, 1 mock writing both capability methods, 3 / 4 / 5 mock region types that really INHERIT
@@ -7,6 +6,8 @@
 //!        16 region.get_slice(b, c), 17 region.as_volatile_slice(), 18 region.file_offset()  (a = region index)
 //! obs :  k(0 None/false, 1 Some/true/Ok/value, 2 Err class, 3 panic) x y z   (+ [starts] [lens] for op 9)
 //! Also exports MockMem/MockRegion and the layout helpers used by the C03 suite.
+//! Compiled in the standard and in the Xen build (the region constructors of `build` are chosen by cfg; suite C03
+//! runs in xen-debug too; C02 itself is only run in the standard builds).
 use crate::tok::n;
 use crate::{util, Rng, Suite, Tier, Tok};
 use std::cell::RefCell;
@@ -349,6 +350,21 @@ fn memfd(size: u64) -> Arc<std::fs::File> {
         Arc::new(std::fs::File::from_raw_fd(fd))
     }
 }
+/// One region of a GuestMemoryMmap layout.  Standard build: MmapRegion::new / from_file + GuestRegionMmap::new
+/// (the two steps spelled out); Xen build (those constructors do not exist there): the one-call route an ordinary
+/// caller uses, GuestRegionMmap::from_range = MmapRange::new_unix + MmapRegion::from_range + GuestRegionMmap::new.
+#[cfg(not(feature = "xen"))]
+fn region(s: u64, l: u64, file: Option<vm_memory::FileOffset>) -> GuestRegionMmap<()> {
+    let mr = match file {
+        Some(f) => MmapRegion::<()>::from_file(f, l as usize).expect("mmap file"),
+        None => MmapRegion::<()>::new(l as usize).expect("mmap"),
+    };
+    GuestRegionMmap::new(mr, GuestAddress(s)).expect("GuestRegionMmap::new")
+}
+#[cfg(feature = "xen")]
+fn region(s: u64, l: u64, file: Option<vm_memory::FileOffset>) -> GuestRegionMmap<()> {
+    GuestRegionMmap::<()>::from_range(GuestAddress(s), l as usize, file).expect("GuestRegionMmap::from_range")
+}
 /// kind 0: anonymous GuestMemoryMmap, 1: MockMem, 2: file-backed (memfd, MAP_SHARED) GuestMemoryMmap,
 /// 3: MockMem whose regions provide get_host_address but hand-code the refusal of get_slice (kept for source
 /// compatibility; suite C02 itself runs kinds 3, 4, 5 on the flavour types above, see `build_flavour`)
@@ -358,14 +374,14 @@ pub fn build(kind: u64, lay: &[(u64, u64)]) -> Built {
         let arcs: Vec<Arc<GuestRegionMmap<()>>> = lay
             .iter()
             .map(|&(s, l)| {
-                let mr = if kind == 2 {
+                let file = if kind == 2 {
                     let f = memfd(l);
                     files.push(f.clone());
-                    MmapRegion::<()>::from_file(vm_memory::FileOffset::from_arc(f, 0), l as usize).expect("mmap file")
+                    Some(vm_memory::FileOffset::from_arc(f, 0))
                 } else {
-                    MmapRegion::<()>::new(l as usize).expect("mmap")
+                    None
                 };
-                Arc::new(GuestRegionMmap::new(mr, GuestAddress(s)).expect("GuestRegionMmap::new"))
+                Arc::new(region(s, l, file))
             })
             .collect();
         let bases = arcs.iter().map(|a| a.as_ptr()).collect();
@@ -392,9 +408,7 @@ pub fn build(kind: u64, lay: &[(u64, u64)]) -> Built {
             }
             match hole {
                 Some(h) => {
-                    let decoy = Arc::new(
-                        GuestRegionMmap::new(MmapRegion::<()>::new(1).expect("mmap"), GuestAddress(h)).expect("decoy"),
-                    );
+                    let decoy = Arc::new(region(h, 1, None));
                     let mut all = arcs.clone();
                     all.push(decoy);
                     all.sort_by_key(|a| a.start_addr());
